@@ -1,21 +1,28 @@
 /-
 C10 (codecs) — error detection of the Bech32 / Bech32m / CashAddr checksums.
 
-BIP-173: "any error affecting at most 4 characters is detected" (strings of at most 90 characters).
-Proved here, on the model's own `bech32Verify` / `bchVerify` (the functions `_VerifyChecksum` is
-modelled by), for either Bech32 constant (`m = false`: Bech32, `m = true`: Bech32m) and ANY HRP:
+BIP-173: "any error affecting at most 4 characters is detected" (strings of at most 90 characters,
+hence at most 88 data symbols).  Proved here, on the model's own `bech32Verify` / `bchVerify` (the
+functions `_VerifyChecksum` is modelled by), for either Bech32 constant (`m = false`: Bech32,
+`m = true`: Bech32m) and ANY HRP, for SUBSTITUTIONS IN THE DATA PART:
 
-  * Bech32(m): 1 wrong symbol — every length; 2 wrong symbols — data part ≤ 1023 symbols;
-               3 wrong symbols — data part ≤ 89 symbols (a BIP-173 string has ≤ 88);
-  * CashAddr:  1 wrong symbol — every length; 2 wrong symbols — data part ≤ 1025 symbols.
+  * Bech32(m): 1 wrong symbol — every length;          2 wrong symbols — data part ≤ 1023 symbols;
+               3 wrong symbols — data part ≤ 256;       4 wrong symbols — data part ≤ 89
+               (`detects_up_to_four`: the BIP-173 guarantee; `min_distance_five`);
+  * CashAddr:  1 wrong symbol — every length;  2 wrong symbols — data part ≤ 1025 symbols;
+               3 wrong symbols — data part ≤ 113 (the longest CashAddr has 112).
 
-NOT covered: 4 wrong symbols (the full BIP-173 claim; a 10^9-step search even after the reductions
-used here), 3 wrong symbols in longer strings or for CashAddr, errors in the HRP, insertions /
-deletions, case errors, and a change of the checksum constant (Bech32 ↔ Bech32m).  "Data part" is
-everything after the separator: payload symbols AND the checksum symbols, as 5-bit values.
-Property theorems only; the proofs live in `BipVerif/Lemmas/BechDistance.lean`.
+"Data part" is everything after the separator: payload symbols AND checksum symbols, as 5-bit
+values; `hamming d d'` counts the positions where the two equal-length data parts differ.
+
+NOT covered: errors in the HRP, insertions / deletions (length changes), upper/lower-case errors, a
+change of the checksum constant (Bech32 ↔ Bech32m), 3 wrong symbols beyond 256 (113) data symbols,
+4 wrong symbols beyond 89 data symbols or for CashAddr, and the probabilistic statement about more
+than 4 errors.  Property theorems only; the proofs live in `BipVerif/Lemmas/BechDistance.lean`
+(reduction, 1–2 errors) and `BipVerif/Lemmas/BechDistanceVec.lean` (3–4 errors).
 -/
-import BipVerif.Lemmas.BechDistance
+import BipVerif.Lemmas.BechDistanceVec
+
 
 namespace BipVerif.Props.C10Distance
 open BipVerif BipVerif.Model
@@ -35,35 +42,60 @@ theorem detects_two (hrp : List Char) (d d' : List Nat) (m : Bool) :
     hamming d d' = 2 → bech32Verify hrp d' m = false :=
   fun hv hl hL hd hd' hh => bech32_detects_two hrp d d' m hv hl hL hd hd' hh
 
-/-- a valid string with exactly three substituted data symbols is rejected (data part ≤ 89). -/
+/-- a valid string with exactly three substituted data symbols is rejected (data part ≤ 256). -/
 theorem detects_three (hrp : List Char) (d d' : List Nat) (m : Bool) :
-    bech32Verify hrp d m = true → d'.length = d.length → d.length ≤ 89 →
+    bech32Verify hrp d m = true → d'.length = d.length → d.length ≤ 256 →
     (∀ x ∈ d, x < 32) → (∀ x ∈ d', x < 32) →
     hamming d d' = 3 → bech32Verify hrp d' m = false :=
   fun hv hl hL hd hd' hh => bech32_detects_three hrp d d' m hv hl hL hd hd' hh
 
-/-- combined: between 1 and 3 substituted data symbols in a data part of at most 89 symbols. -/
-theorem detects_up_to_three (hrp : List Char) (d d' : List Nat) (m : Bool)
+/-- a valid string with exactly four substituted data symbols is rejected (data part ≤ 89). -/
+theorem detects_four (hrp : List Char) (d d' : List Nat) (m : Bool) :
+    bech32Verify hrp d m = true → d'.length = d.length → d.length ≤ 89 →
+    (∀ x ∈ d, x < 32) → (∀ x ∈ d', x < 32) →
+    hamming d d' = 4 → bech32Verify hrp d' m = false :=
+  fun hv hl hL hd hd' hh => bech32_detects_four hrp d d' m hv hl hL hd hd' hh
+
+/-- **the BIP-173 guarantee** (substitutions in the data part): between 1 and 4 wrong symbols in a
+data part of at most 89 symbols are always detected. -/
+theorem detects_up_to_four (hrp : List Char) (d d' : List Nat) (m : Bool)
     (hv : bech32Verify hrp d m = true) (hl : d'.length = d.length) (hL : d.length ≤ 89)
     (hd : ∀ x ∈ d, x < 32) (hd' : ∀ x ∈ d', x < 32)
-    (h1 : 1 ≤ hamming d d') (h3 : hamming d d' ≤ 3) : bech32Verify hrp d' m = false := by
-  have h : hamming d d' = 1 ∨ hamming d d' = 2 ∨ hamming d d' = 3 := by omega
-  rcases h with h | h | h
+    (h1 : 1 ≤ hamming d d') (h4 : hamming d d' ≤ 4) : bech32Verify hrp d' m = false := by
+  have h : hamming d d' = 1 ∨ hamming d d' = 2 ∨ hamming d d' = 3 ∨ hamming d d' = 4 := by omega
+  rcases h with h | h | h | h
   · exact detects_one hrp d d' m hv hl hd hd' h
   · exact detects_two hrp d d' m hv hl (by omega) hd hd' h
-  · exact detects_three hrp d d' m hv hl hL hd hd' h
+  · exact detects_three hrp d d' m hv hl (by omega) hd hd' h
+  · exact detects_four hrp d d' m hv hl hL hd hd' h
 
-/-- contrapositive reading: two distinct valid equal-length data parts (≤ 89 symbols) under the same
-HRP and constant differ in at least 4 positions. -/
-theorem min_distance_four (hrp : List Char) (d d' : List Nat) (m : Bool)
+/-- contrapositive reading: two valid equal-length data parts (≤ 89 symbols) under the same HRP and
+constant that differ at all differ in at least 5 positions. -/
+theorem min_distance_five (hrp : List Char) (d d' : List Nat) (m : Bool)
     (hv : bech32Verify hrp d m = true) (hv' : bech32Verify hrp d' m = true)
     (hl : d'.length = d.length) (hL : d.length ≤ 89)
     (hd : ∀ x ∈ d, x < 32) (hd' : ∀ x ∈ d', x < 32) (hne : hamming d d' ≠ 0) :
-    4 ≤ hamming d d' := by
+    5 ≤ hamming d d' := by
   by_contra hlt
-  have := detects_up_to_three hrp d d' m hv hl hL hd hd' (by omega) (by omega)
+  have := detects_up_to_four hrp d d' m hv hl hL hd hd' (by omega) (by omega)
   rw [hv'] at this
   exact absurd this (by simp)
+
+/-- `hamming` is zero only for equal strings (so `hamming d d' ≠ 0` above just says `d ≠ d'`). -/
+theorem hamming_eq_zero : ∀ d d' : List Nat, d'.length = d.length → hamming d d' = 0 → d = d' := by
+  intro d
+  induction d with
+  | nil => intro d' hl _; exact (List.eq_nil_of_length_eq_zero hl).symm
+  | cons x d ih =>
+    intro d' hl h
+    cases d' with
+    | nil => simp at hl
+    | cons y d' =>
+      simp only [hamming] at h
+      by_cases hxy : x = y
+      · subst hxy
+        rw [ih d' (by simpa using hl) (by simpa using h)]
+      · simp [hxy] at h
 
 /-! #### the hypotheses are satisfiable -/
 
@@ -99,6 +131,18 @@ example : bech32Verify ['b', 'c'] p2wpkh' false = false :=
   detects_three ['b', 'c'] p2wpkh p2wpkh' false (by decide +kernel) rfl (by decide) (by decide)
     (by decide) (by decide +kernel)
 
+/-- the same vector with four symbols changed. -/
+def p2wpkh4 : List Nat :=
+  [1, 14, 20, 15, 7, 13, 26, 0, 25, 18, 6, 11, 13, 8, 21, 4, 20, 3, 17, 2, 29, 3, 12, 29, 3, 5, 15,
+    24, 20, 6, 14, 30, 22, 12, 7, 9, 0, 11, 22]
+
+example : bech32Verify ['b', 'c'] p2wpkh false = true ∧ hamming p2wpkh p2wpkh4 = 4 := by
+  decide +kernel
+
+example : bech32Verify ['b', 'c'] p2wpkh4 false = false :=
+  detects_four ['b', 'c'] p2wpkh p2wpkh4 false (by decide +kernel) rfl (by decide) (by decide)
+    (by decide) (by decide +kernel)
+
 /-! ### CashAddr -/
 
 /-- a valid CashAddr string with exactly one substituted data symbol is rejected (any length). -/
@@ -113,6 +157,13 @@ theorem cashaddr_detects_two (hrp : List Char) (d d' : List Nat) :
     (∀ x ∈ d, x < 32) → (∀ x ∈ d', x < 32) →
     hamming d d' = 2 → bchVerify hrp d' = false :=
   fun hv hl hL hd hd' hh => bch_detects_two hrp d d' hv hl hL hd hd' hh
+
+/-- a valid CashAddr string with exactly three substituted data symbols is rejected (≤ 113). -/
+theorem cashaddr_detects_three (hrp : List Char) (d d' : List Nat) :
+    bchVerify hrp d = true → d'.length = d.length → d.length ≤ 113 →
+    (∀ x ∈ d, x < 32) → (∀ x ∈ d', x < 32) →
+    hamming d d' = 3 → bchVerify hrp d' = false :=
+  fun hv hl hL hd hd' hh => bch_detects_three hrp d d' hv hl hL hd hd' hh
 
 /-- CashAddr specification vector `bitcoincash:qpm2qsznhks23z7629mms6s4cwef74vcwvy22gdx6a`;
 two symbols changed. -/
